@@ -423,7 +423,8 @@ def run(ctx):
     ctx.assumptions = ['float pow() evaluates a^(1-w) b^w from exact rationals (analytic lemma: monotone in w)',
                        'TLC + CommunityModules Json/IOUtils', 'fixtures subclass InterpolatingOpacity/KTable only to supply tables']
     for mode in ('lin', 'exp'):
-        ctx.check_spec('exhaustive-%s' % mode, 'MC_Interp', 'MC_Interp_%s_%s.cfg' % (mode, ctx.tier), need_actions=('Eval',))
+        ctx.check_spec('exhaustive-%s' % mode, 'MC_Interp', 'MC_Interp_%s_%s.cfg' % (mode, ctx.tier), need_actions=('Eval',),
+                       workers=4 if q else 16)
     ctx.exhaustive = True
     def uniq_vecs(res):
         seen, uniq = set(), []
